@@ -146,6 +146,10 @@ class Tokenizer:
             pos += len(found)
             col += len(found)
 
+        # True while the last token yielded is S and only comments were
+        # dropped since: S, dropped comment, S is one S for the parsers
+        afterS = False
+
         # Avoid repeated function call
         _len_text = len(text)
         _orig_text = text
@@ -157,6 +161,7 @@ class Tokenizer:
             c = text[pos]
             if c in ',:;{}>[]':  # + but in num!
                 yield ('CHAR', c, line, col)
+                afterS = False
                 col += 1
                 pos += 1
 
@@ -170,6 +175,7 @@ class Tokenizer:
                         match = self.commentmatcher(possiblecomment)
                         if match and self._doComments:
                             yield ('COMMENT', possiblecomment, line, col)
+                            afterS = False
                             pos = _len_text  # ate all remaining text
                             break
 
@@ -248,7 +254,9 @@ class Tokenizer:
                         if self._doComments or (
                             not self._doComments and name != 'COMMENT'
                         ):
-                            yield (name, value, line, col)
+                            if not (afterS and name == 'S'):
+                                yield (name, value, line, col)
+                            afterS = name == 'S'
 
                         pos += len(found)
                         nls = found.count(self._linesep)
